@@ -367,7 +367,7 @@ theorem loopBody_some {P : Nat → φ → Prop} {labels : List Nat} {st : StoreS
   unfold loopBody
   rw [hloc]
   simp only [Option.isSome_some, if_true]
-  cases hfetch : Loop.fetch st { ls with lru := touch ls.lru t.1 } t.2 with
+  cases hfetch : Loop.fetch st ls t.2 with
   | error el =>
     obtain ⟨e, ls'⟩ := el
     right
@@ -380,12 +380,11 @@ theorem loopBody_some {P : Nat → φ → Prop} {labels : List Nat} {st : StoreS
       simp only at hnone; subst hnone
       simp only [Aligned] at hal
       obtain ⟨f, r', hrr, _, _⟩ := hal
-      simp only at hr; rw [hrr] at hr; cases hr
+      rw [hrr] at hr; cases hr
     · exact hr
   | ok fl =>
     obtain ⟨frame, ls1⟩ := fl
-    obtain ⟨_, e2, e1, e3, hrd⟩ := fetch_ok hfetch
-    simp only at e1 e2 e3
+    obtain ⟨e0, e2, e1, e3, hrd⟩ := fetch_ok hfetch
     -- the frame is acceptable, the reader stays aligned
     have hP : P t.1 frame ∧ Aligned P ts ls1.reader := by
       obtain ⟨l, fr⟩ := t
@@ -396,7 +395,6 @@ theorem loopBody_some {P : Nat → φ → Prop} {labels : List Nat} {st : StoreS
       · simp only at hfr; subst hfr
         simp only [Aligned] at hal
         obtain ⟨f, r', hr, hp, hrest⟩ := hal
-        simp only at hrr
         rw [hrr] at hr
         simp only [List.cons.injEq] at hr
         obtain ⟨rfl, rfl⟩ := hr
@@ -405,21 +403,22 @@ theorem loopBody_some {P : Nat → φ → Prop} {labels : List Nat} {st : StoreS
     have hlenL : ls.loaded.length = labels.length := by rw [ha.flags]; simp [ha.lenA]
     have hidx : idx < labels.length := (List.getElem?_eq_some_iff.mp hlab).1
     have hbget : ls.loaded[idx]? = some ls.loaded[idx] := List.getElem?_eq_getElem (by omega)
-    rw [e2, hbget]
+    have hbget' : ls1.loaded[idx]? = some ls.loaded[idx] := by rw [e2]; exact hbget
+    rw [hbget']
     simp only
-    have ha1 : ArrInv P labels ls1 := by
-      refine ⟨?_, ?_, ?_⟩
-      · have := (fetch_ok hfetch).1; rw [this]; exact ha.lenA
-      · have := (fetch_ok hfetch).1; rw [this, e2]; exact ha.flags
-      · have := (fetch_ok hfetch).1; rw [this]; exact ha.content
+    have ha1 : ArrInv P labels { ls1 with lru := touch ls1.lru t.1 } :=
+      ⟨by show ls1.array.length = _; rw [e0]; exact ha.lenA,
+       by show ls1.loaded = ls1.array.map _; rw [e0, e2]; exact ha.flags,
+       by intro i l f hi hf; exact ha.content i l f hi (by rw [← e0]; exact hf)⟩
     have ha2 := ha1.mark (b := ls.loaded[idx]) (some k) hlab hP.1
-    obtain ⟨hl2, hlru2⟩ := LruInv.touch_mark (k := k) (frame := frame) hn hl e1 e2 e3 hlab hbget
-    have hreader2 : (ls1.mark (some k) idx frame ls.loaded[idx]).reader = ls1.reader := by
+    obtain ⟨hl2, hlru2⟩ := LruInv.touch_mark (ls1 := { ls1 with lru := touch ls1.lru t.1 }) (k := k) (frame := frame)
+      hn hl (by show touch ls1.lru t.1 = _; rw [e1]) e2 e3 hlab hbget
+    have hreader2 : (({ ls1 with lru := touch ls1.lru t.1 } : Loop φ).mark (some k) idx frame ls.loaded[idx]).reader = ls1.reader := by
       unfold Loop.mark; split <;> rfl
-    have hcount2 : (ls1.mark (some k) idx frame ls.loaded[idx]).count ≤ ls.count + 1 := by
+    have hcount2 : (({ ls1 with lru := touch ls1.lru t.1 } : Loop φ).mark (some k) idx frame ls.loaded[idx]).count ≤ ls.count + 1 := by
       unfold Loop.mark; split <;> simp [e3]
     left
-    by_cases hgt : (ls1.mark (some k) idx frame ls.loaded[idx]).count > k
+    by_cases hgt : (({ ls1 with lru := touch ls1.lru t.1 } : Loop φ).mark (some k) idx frame ls.loaded[idx]).count > k
     · rw [if_pos hgt]
       obtain ⟨ls3, hev, hl3, hlru3, hcnt3, hrd3⟩ := LruInv.evict hn hl2 (by omega)
       refine ⟨ls3, hev, ha2.evict hev, hl3, by omega, ?_, by rw [hrd3, hreader2]; exact hP.2⟩
@@ -814,6 +813,22 @@ theorem updateCache_prep {P : Nat → φ → Prop} {store : StoreFn φ} {pinnedR
       have := List.all_eq_true.mp h p hp
       simpa using this
 
+theorem need_of_load {P : Nat → φ → Prop} {s : BusSt φ} (hinv : Inv P s) {ps : List Nat}
+    (hps : ∀ p ∈ ps, p < s.labels.length)
+    (h : (if s.loadedAll then false else !(ps.all fun p => s.loaded[p]? == some true)) = true) :
+    ∃ p ∈ ps, s.loaded[p]? = some false := by
+  have hlenL : s.loaded.length = s.labels.length := by rw [hinv.flags]; simp [hinv.lenCache]
+  by_cases hall : s.loadedAll = true
+  · simp [hall] at h
+  · simp only [hall, Bool.false_eq_true, if_false, Bool.not_eq_true', List.all_eq_false] at h
+    obtain ⟨p, hp, hpf⟩ := h
+    refine ⟨p, hp, ?_⟩
+    have hlt : p < s.loaded.length := by rw [hlenL]; exact hps p hp
+    rw [List.getElem?_eq_getElem hlt] at hpf ⊢
+    cases hb : s.loaded[p] with
+    | false => rfl
+    | true => rw [hb] at hpf; simp at hpf
+
 /-- `_update_series_cache_iloc`, max_persist = None -/
 theorem updateCache_none {P : Nat → φ → Prop} {store : StoreFn φ} {pinnedReader : Bool} {st : StoreSt} {s : BusSt φ}
     {ps : List Nat} {isElement : Bool}
@@ -824,7 +839,8 @@ theorem updateCache_none {P : Nat → φ → Prop} {store : StoreFn φ} {pinnedR
         s'.maxPersist = none ∧
         (∀ i : Nat, s.loaded[i]? = some true → s'.loaded[i]? = some true) ∧
         ∀ p ∈ ps, s'.loaded[p]? = some true)
-    ∨ (∃ e s', s.updateCache store pinnedReader st ps isElement = .error (e, s') ∧ StoreFailed st φ e) := by
+    ∨ (∃ e s', s.updateCache store pinnedReader st ps isElement = .error (e, s') ∧ StoreFailed st φ e ∧
+        ∃ p ∈ ps, s.loaded[p]? = some false) := by
   obtain ⟨targets, htg, htlab, htmem, htps, hmemL, hsnap, hal, hnoload⟩ :=
     updateCache_prep (store := store) (pinnedReader := pinnedReader) (isElement := isElement) hinv hR1 (by rw [hmp]; exact hR2) hps hel
   unfold BusSt.updateCache
@@ -863,7 +879,7 @@ theorem updateCache_none {P : Nat → φ → Prop} {store : StoreFn φ} {pinnedR
         exact hset t ht p htl
     · rw [hrun]
       right
-      exact ⟨e, _, rfl, hfail⟩
+      exact ⟨e, _, rfl, hfail, need_of_load hinv hps hload'⟩
 
 /-- `_update_series_cache_iloc`, max_persist = some k: the recency list is the abstract LRU run -/
 theorem updateCache_some {P : Nat → φ → Prop} {store : StoreFn φ} {pinnedReader : Bool} {st : StoreSt} {s : BusSt φ}
@@ -873,7 +889,8 @@ theorem updateCache_some {P : Nat → φ → Prop} {store : StoreFn φ} {pinnedR
     (hps : ∀ p ∈ ps, p < s.labels.length) (hel : isElement = true → ps.length ≤ 1) :
     (∃ s', s.updateCache store pinnedReader st ps isElement = .ok s' ∧ Inv P s' ∧ s'.labels = s.labels ∧
         s'.maxPersist = some k ∧ s'.lru = (pick s.labels ps).foldl (absTouch k) s.lru)
-    ∨ (∃ e s', s.updateCache store pinnedReader st ps isElement = .error (e, s') ∧ StoreFailed st φ e) := by
+    ∨ (∃ e s', s.updateCache store pinnedReader st ps isElement = .error (e, s') ∧ StoreFailed st φ e ∧
+        ∃ p ∈ ps, s.loaded[p]? = some false) := by
   obtain ⟨targets, htg, htlab, htmem, htps, hmemL, hsnap, hal, hnoload⟩ :=
     updateCache_prep (store := store) (pinnedReader := pinnedReader) (isElement := isElement) hinv hR1 (by rw [hmp]; exact hR2) hps hel
   have hmpS : s.maxPersist.isSome = true := by rw [hmp]; rfl
@@ -942,9 +959,218 @@ theorem updateCache_some {P : Nat → φ → Prop} {store : StoreFn φ} {pinnedR
         rw [hlru', htlab]
     · rw [hrun]
       right
-      exact ⟨e, _, rfl, hfail⟩
+      exact ⟨e, _, rfl, hfail, need_of_load hinv hps hload'⟩
 
 end SF.Bus
+
+namespace SF.Bus
+open SF
+variable {φ : Type}
+
+/-! ### failing store reads: the first needed read raises, nothing is loaded or dropped, the invariant survives -/
+
+theorem StoreSt.read_stale {β} (s : StoreSt) (d : β) (h : s.file ≠ s.seen) : s.read d = .error .storeMutation := by
+  unfold StoreSt.read StoreSt.coherentNonWrite
+  rw [(StoreSt.incoherent_iff s).mpr h]
+
+/-- whether a decorated read succeeds depends on the store state only, not on the data -/
+theorem StoreSt.read_uniform (β : Type) (s : StoreSt) :
+    (∀ d : β, s.read d = .ok d) ∨ (∃ e, ∀ d : β, s.read d = .error e) := by
+  by_cases hc : s.file = s.seen
+  · cases hf : s.file with
+    | none =>
+      right; refine ⟨.other, fun d => ?_⟩
+      unfold StoreSt.read StoreSt.coherentNonWrite StoreSt.rawRead
+      rw [(StoreSt.coherent_iff s).mpr hc]; simp [hf]
+    | some t =>
+      left; intro d
+      exact StoreSt.read_ok s d hf (by rw [← hc, hf])
+  · right; exact ⟨.storeMutation, fun d => StoreSt.read_stale s d hc⟩
+
+theorem loopBody_snapshot_loaded {st : StoreSt} {labels : List Nat} {mp : Option Nat} {ls : Loop φ}
+    {t : Nat × Option φ} {f : φ} {idx : Nat}
+    (hloc : locToIloc labels t.1 = .ok idx) (hf : t.2 = some f) (hb : ls.loaded[idx]? = some true)
+    (hk : ∀ k, mp = some k → ls.count ≤ k) :
+    loopBody st labels mp ls t = .ok { ls with lru := if mp.isSome then touch ls.lru t.1 else ls.lru } := by
+  unfold loopBody
+  rw [hloc]
+  simp only
+  unfold Loop.fetch
+  rw [hf]
+  cases mp with
+  | none => simp only [Option.isSome_none, Bool.false_eq_true, if_false, hb, Loop.mark, if_true]
+  | some k =>
+    simp only [Option.isSome_some, if_true, hb, Loop.mark]
+    have := hk k rfl
+    rw [if_neg (by simp; omega)]
+
+/-- a failing read aborts the iteration before anything is recorded -/
+theorem loopBody_deferred_fail {st : StoreSt} {labels : List Nat} {mp : Option Nat} {ls : Loop φ}
+    {t : Nat × Option φ} {idx : Nat} {f : φ} {r : List φ} {e : Err}
+    (hloc : locToIloc labels t.1 = .ok idx) (hf : t.2 = none) (hr : ls.reader = f :: r)
+    (hfail : st.read f = .error e) :
+    loopBody st labels mp ls t = .error (e, ls) := by
+  unfold loopBody
+  rw [hloc]
+  simp only
+  unfold Loop.fetch
+  rw [hf]
+  simp only [hr, hfail]
+
+/-- what an aborted loop may have done to the recency list: labels already in it were moved -/
+def LruSame (a b : List Nat) : Prop := b.Nodup ∧ (∀ x, x ∈ b ↔ x ∈ a) ∧ b.length = a.length
+
+theorem LruSame.refl {a : List Nat} (h : a.Nodup) : LruSame a a := ⟨h, fun _ => Iff.rfl, rfl⟩
+
+theorem LruSame.touch {a : List Nat} (h : a.Nodup) {l : Nat} (hl : l ∈ a) : LruSame a (touch a l) := by
+  refine ⟨nodup_touch h l, ?_, length_touch_mem hl⟩
+  intro x; rw [mem_touch h]
+  constructor
+  · rintro (hx | hx)
+    · exact hx
+    · subst hx; exact hl
+  · intro hx; exact .inl hx
+
+theorem LruSame.trans {a b c : List Nat} (h1 : LruSame a b) (h2 : LruSame b c) : LruSame a c :=
+  ⟨h2.1, fun x => (h2.2.1 x).trans (h1.2.1 x), h2.2.2.trans h1.2.2⟩
+
+theorem loopRun_fail {st : StoreSt} {labels : List Nat} {mp : Option Nat} {e : Err} (hn : labels.Nodup)
+    (hfail : ∀ f : φ, st.read f = .error e) (L0 : List Bool) :
+    ∀ (ts : List (Nat × Option φ)) (ls : Loop φ),
+      ls.loaded = L0 → (∀ k, mp = some k → ls.count ≤ k) →
+      (∀ t ∈ ts, ∃ i : Nat, labels[i]? = some t.1 ∧ L0[i]? = some t.2.isSome) →
+      Aligned (fun _ _ => True) ts ls.reader → (∃ t ∈ ts, t.2 = none) →
+      ls.lru.Nodup →
+      (mp.isSome = true → ∀ (i l : Nat), labels[i]? = some l → L0[i]? = some true → l ∈ ls.lru) →
+      ∃ ls', loopRun st labels mp ls ts = .error (e, ls') ∧ ls'.loaded = L0 ∧ LruSame ls.lru ls'.lru := by
+  intro ts
+  induction ts with
+  | nil => intro ls _ _ _ _ hex; obtain ⟨t, ht, _⟩ := hex; cases ht
+  | cons t ts ih =>
+    intro ls hL hk hflag hal hex hnd hmem
+    obtain ⟨i, hi, hLi⟩ := hflag t (by simp)
+    obtain ⟨idx, hloc, hlab⟩ := locToIloc_ok (List.mem_of_getElem? hi)
+    have hii : idx = i := nodup_idx_unique hn hlab hi
+    subst hii
+    unfold loopRun
+    cases ht2 : t.2 with
+    | none =>
+      obtain ⟨l, fr⟩ := t
+      simp only at ht2; subst ht2
+      simp only [Aligned] at hal
+      obtain ⟨f, r, hr, _, _⟩ := hal
+      rw [loopBody_deferred_fail (st := st) (mp := mp) (ls := ls) hloc rfl hr (hfail f)]
+      exact ⟨ls, rfl, hL, LruSame.refl hnd⟩
+    | some f =>
+      have hLtrue : L0[idx]? = some true := by rw [hLi, ht2]; rfl
+      have hb : ls.loaded[idx]? = some true := by rw [hL]; exact hLtrue
+      rw [loopBody_snapshot_loaded (st := st) hloc ht2 hb hk]
+      simp only
+      have hal' : Aligned (fun _ _ => True) ts ls.reader := by
+        obtain ⟨l, fr⟩ := t
+        simp only at ht2; subst ht2
+        simpa [Aligned] using hal
+      have hex' : ∃ t' ∈ ts, t'.2 = none := by
+        obtain ⟨t', ht', hn'⟩ := hex
+        simp only [List.mem_cons] at ht'
+        rcases ht' with ht' | ht'
+        · subst ht'; rw [ht2] at hn'; cases hn'
+        · exact ⟨t', ht', hn'⟩
+      have hsame : LruSame ls.lru (if mp.isSome then touch ls.lru t.1 else ls.lru) := by
+        cases hmp : mp.isSome with
+        | false => simp only [Bool.false_eq_true, if_false]; exact LruSame.refl hnd
+        | true => simp only [if_true]; exact LruSame.touch hnd (hmem hmp idx t.1 hlab hLtrue)
+      obtain ⟨ls', hrun, hl', hs'⟩ := ih { ls with lru := if mp.isSome then touch ls.lru t.1 else ls.lru } hL hk
+        (fun t' ht' => hflag t' (List.mem_cons_of_mem _ ht')) hal' hex' hsame.1
+        (fun hmp i l hi hl => (hsame.2.1 l).mpr (hmem hmp i l hi hl))
+      exact ⟨ls', hrun, hl', hsame.trans hs'⟩
+
+/-- When the store reads fail, an access that needs a load raises that error; flags and cells are untouched, the
+    recency list keeps its members (labels served from the cache before the failing read were moved), and the
+    representation invariant still holds. -/
+theorem updateCache_fail {P : Nat → φ → Prop} {store : StoreFn φ} {pinnedReader : Bool} {st : StoreSt} {s : BusSt φ}
+    {ps : List Nat} {isElement : Bool} {e : Err}
+    (hinv : Inv P s) (hfail : ∀ f : φ, st.read f = .error e)
+    (hps : ∀ p ∈ ps, p < s.labels.length) (hel : isElement = true → ps.length ≤ 1)
+    (hneed : ∃ p ∈ ps, s.loaded[p]? = some false) :
+    ∃ s', s.updateCache store pinnedReader st ps isElement = .error (e, s') ∧ Inv P s' ∧
+      s'.loaded = s.loaded ∧ s'.cache = s.cache ∧ s'.labels = s.labels ∧ s'.maxPersist = s.maxPersist ∧
+      LruSame s.lru s'.lru := by
+  have hlenL : s.loaded.length = s.labels.length := by rw [hinv.flags]; simp [hinv.lenCache]
+  obtain ⟨targets, htg⟩ := targetsOf_some s hinv.lenCache ps hps
+  obtain ⟨htlen, htlab, htmem, htps⟩ := targetsOf_spec s ps targets htg
+  obtain ⟨p0, hp0, hp0f⟩ := hneed
+  have hload : (if s.loadedAll then false else !(ps.all fun p => s.loaded[p]? == some true)) = true := by
+    have hnall : s.loadedAll = false := by
+      cases h : s.loadedAll with
+      | false => rfl
+      | true =>
+        have := all_loaded_of_flag hinv h (hps p0 hp0)
+        rw [hp0f] at this; cases this
+    rw [hnall]
+    simp only [Bool.false_eq_true, if_false, Bool.not_eq_true', List.all_eq_false]
+    exact ⟨p0, hp0, by rw [hp0f]; decide⟩
+  unfold BusSt.updateCache
+  simp only [htg, hload, Bool.not_true, Bool.false_and, Bool.false_eq_true, if_false]
+  have hflag : ∀ t ∈ targets, ∃ i : Nat, s.labels[i]? = some t.1 ∧ s.loaded[i]? = some t.2.isSome := by
+    intro t ht
+    obtain ⟨p, _, hpl, hpc⟩ := htmem t ht
+    exact ⟨p, hpl, by rw [hinv.flags, List.getElem?_map, hpc]; rfl⟩
+  have hex : ∃ t ∈ targets, t.2 = none := by
+    obtain ⟨t, ht, htl⟩ := htps p0 hp0
+    refine ⟨t, ht, ?_⟩
+    obtain ⟨i, hil, hif⟩ := hflag t ht
+    have : i = p0 := nodup_idx_unique hinv.labelsNodup hil htl
+    subst this
+    rw [hp0f] at hif
+    cases h2 : t.2 with
+    | none => rfl
+    | some f => rw [h2] at hif; cases hif
+  have hal : Aligned (fun _ _ => True) targets
+      (if isElement then targets.map fun t => store (some t.1) t.1
+       else storeReaderFrames store pinnedReader s.maxPersist ((targets.filter fun t => t.2.isNone).map (·.1))) := by
+    cases isElement with
+    | true =>
+      simp only [if_true]
+      exact aligned_element (P := fun _ _ => True) (fun l => store (some l) l) (fun _ => trivial) targets
+        (by rw [htlen]; exact hel rfl)
+    | false =>
+      simp only [Bool.false_eq_true, if_false]
+      rw [storeReaderFrames_eq]
+      exact aligned_deferred (P := fun _ _ => True) _ (fun _ => trivial) targets
+  obtain ⟨ls', hrun, hl', hsame⟩ := loopRun_fail (st := st) (mp := s.maxPersist) hinv.labelsNodup hfail s.loaded targets
+    { array := s.cache, loaded := s.loaded, lru := s.lru, count := s.loaded.count true,
+      reader := (if isElement then targets.map fun t => store (some t.1) t.1
+        else storeReaderFrames store pinnedReader s.maxPersist ((targets.filter fun t => t.2.isNone).map (·.1))) }
+    rfl (fun k hk => hinv.bound k hk) hflag hal hex hinv.lruNodup
+    (fun hmp i l hi hl => (hinv.lruMem hmp i l hi).mp hl)
+  rw [hrun]
+  refine ⟨_, rfl, ?_, hl', rfl, rfl, rfl, hsame⟩
+  exact { labelsNodup := hinv.labelsNodup, lenCache := hinv.lenCache,
+          flags := (by show ls'.loaded = _; rw [hl']; exact hinv.flags),
+          allFlag := (by show s.loadedAll = ls'.loaded.all id; rw [hl']; exact hinv.allFlag),
+          content := hinv.content,
+          lruNone := (by
+            intro hmp
+            have h0 := hinv.lruNone hmp
+            have hlen := hsame.2.2
+            show ls'.lru = []
+            rw [h0] at hlen
+            exact List.eq_nil_of_length_eq_zero hlen),
+          lruNodup := hsame.1,
+          lruMem := (by
+            intro hmp i l hi
+            show ls'.loaded[i]? = some true ↔ l ∈ ls'.lru
+            rw [hl', hsame.2.1]; exact hinv.lruMem hmp i l hi),
+          lruSub := (by intro l hl; exact hinv.lruSub l ((hsame.2.1 l).mp hl)),
+          lruLen := (by
+            intro hmp
+            show ls'.lru.length = ls'.loaded.count true
+            rw [hl', hsame.2.2]; exact hinv.lruLen hmp),
+          bound := (by intro k hk; show ls'.loaded.count true ≤ k; rw [hl']; exact hinv.bound k hk) }
+
+end SF.Bus
+
 
 namespace SF.Bus
 open SF
@@ -1156,7 +1382,9 @@ theorem mem_absTouch_self {k : Nat} (hk : 1 ≤ k) (lru : List Nat) (l : Nat) : 
     | cons a e => simp
   · simp
 
-/-- `_update_series_cache_iloc` under the representation invariant (both max_persist cases). -/
+/-- `_update_series_cache_iloc` under the representation invariant (both max_persist cases): it succeeds with
+    the invariant and the abstract-LRU recency list, or a store read failed and the Bus is left with the
+    invariant, the same flags and the same cells. -/
 theorem updateCache_spec {P : Nat → φ → Prop} {store : StoreFn φ} {pinnedReader : Bool} {st : StoreSt} {s : BusSt φ}
     {ps : List Nat} {isElement : Bool}
     (hinv : Inv P s) (hR1 : ∀ l, P l (store (some l) l))
@@ -1167,19 +1395,36 @@ theorem updateCache_spec {P : Nat → φ → Prop} {store : StoreFn φ} {pinnedR
         (∀ k, s.maxPersist = some k → s'.lru = (pick s.labels ps).foldl (absTouch k) s.lru) ∧
         (s.maxPersist = none → (∀ i : Nat, s.loaded[i]? = some true → s'.loaded[i]? = some true) ∧
             ∀ p ∈ ps, s'.loaded[p]? = some true))
-    ∨ (∃ e s', s.updateCache store pinnedReader st ps isElement = .error (e, s') ∧ StoreFailed st φ e) := by
+    ∨ (∃ e s', s.updateCache store pinnedReader st ps isElement = .error (e, s') ∧ StoreFailed st φ e ∧
+        Inv P s' ∧ s'.labels = s.labels ∧ s'.maxPersist = s.maxPersist ∧ s'.loaded = s.loaded ∧
+        s'.cache = s.cache) := by
+  have hfailcase : ∀ e s', s.updateCache store pinnedReader st ps isElement = .error (e, s') → StoreFailed st φ e →
+      (∃ p ∈ ps, s.loaded[p]? = some false) →
+      Inv P s' ∧ s'.labels = s.labels ∧ s'.maxPersist = s.maxPersist ∧ s'.loaded = s.loaded ∧ s'.cache = s.cache := by
+    intro e s' hupd hsf hneed
+    obtain ⟨f, hf⟩ := hsf
+    rcases StoreSt.read_uniform φ st with hok | ⟨e', hall⟩
+    · rw [hok f] at hf; cases hf
+    · have : e' = e := by rw [hall f] at hf; cases hf; rfl
+      subst this
+      obtain ⟨s2, h1, h2, h3, h4, h5, h6, _⟩ := updateCache_fail (store := store) (pinnedReader := pinnedReader)
+        (isElement := isElement) hinv hall hps hel hneed
+      rw [h1] at hupd
+      simp only [Except.error.injEq, Prod.mk.injEq, true_and] at hupd
+      subst hupd
+      exact ⟨h2, h5, h6, h3, h4⟩
   rcases Option.eq_none_or_eq_some s.maxPersist with hmp | ⟨k, hmp⟩
   · rcases updateCache_none (st := st) hinv hmp hR1 (by rw [← hmp]; exact hR2) hps hel with
-      ⟨s', h1, h2, h3, h4, h5, h6⟩ | h
+      ⟨s', h1, h2, h3, h4, h5, h6⟩ | ⟨e, s', h1, h2, h3⟩
     · left
       exact ⟨s', h1, h2, h3, by rw [h4, hmp], (by intro k hk; rw [hmp] at hk; cases hk), fun _ => ⟨h5, h6⟩⟩
-    · right; exact h
+    · right; exact ⟨e, s', h1, h2, hfailcase e s' h1 h2 h3⟩
   · rcases updateCache_some (st := st) hinv hmp hR1 (by rw [← hmp]; exact hR2) hps hel with
-      ⟨s', h1, h2, h3, h4, h5⟩ | h
+      ⟨s', h1, h2, h3, h4, h5⟩ | ⟨e, s', h1, h2, h3⟩
     · left
       refine ⟨s', h1, h2, h3, by rw [h4, hmp], ?_, (by intro h; rw [hmp] at h; cases h)⟩
       intro k' hk'; rw [hmp] at hk'; cases hk'; exact h5
-    · right; exact h
+    · right; exact ⟨e, s', h1, h2, hfailcase e s' h1 h2 h3⟩
 
 /-- outcome of an extraction on a Bus that satisfies the invariant -/
 theorem extractIloc_spec {P : Nat → φ → Prop} {store : StoreFn φ} {pinnedReader : Bool} {st : StoreSt} {s : BusSt φ}
@@ -1195,15 +1440,16 @@ theorem extractIloc_spec {P : Nat → φ → Prop} {store : StoreFn φ} {pinnedR
          | .element v => k.isMulti = false ∧ ∃ p, ps = [p] ∧ p < s.labels.length ∧ s'.cache[p]? = some v
          | .bus d => k.isMulti = true ∧ Inv P d ∧ d.labels = pick s.labels ps ∧ d.maxPersist = s.maxPersist))
     ∨ (∃ e s', s.extractIloc store pinnedReader st k = .error (e, s') ∧
+        Inv P s' ∧ s'.labels = s.labels ∧ s'.maxPersist = s.maxPersist ∧ s'.loaded = s.loaded ∧ s'.cache = s.cache ∧
         (StoreFailed st φ e ∨ (s' = s ∧ (k.positions s.labels.length = .error e ∨ e = .nonUnique)))) := by
   unfold BusSt.extractIloc
   cases hpos : k.positions s.labels.length with
-  | error e => right; exact ⟨e, s, rfl, .inr ⟨rfl, .inl rfl⟩⟩
+  | error e => right; exact ⟨e, s, rfl, hinv, rfl, rfl, rfl, rfl, .inr ⟨rfl, .inl rfl⟩⟩
   | ok ps =>
     simp only
     have hps := SF.C04.key_positions_in_range hpos
     by_cases hdup : (k.isMulti && !decide ps.Nodup) = true
-    · rw [if_pos hdup]; right; exact ⟨_, s, rfl, .inr ⟨rfl, .inr rfl⟩⟩
+    · rw [if_pos hdup]; right; exact ⟨_, s, rfl, hinv, rfl, rfl, rfl, rfl, .inr ⟨rfl, .inr rfl⟩⟩
     · rw [if_neg hdup]
       have hel : (!k.isMulti) = true → ps.length ≤ 1 := by
         intro h
@@ -1211,7 +1457,7 @@ theorem extractIloc_spec {P : Nat → φ → Prop} {store : StoreFn φ} {pinnedR
         | int i => obtain ⟨p, hp, _⟩ := SF.C04.int_position hpos; rw [hp]; simp
         | _ => simp [Key.isMulti] at h
       rcases updateCache_spec (st := st) (isElement := !k.isMulti) hinv hR1 hR2 hps hel with
-        ⟨s', hupd, hinv', hlab', hmp', hlru', hnone'⟩ | ⟨e, s', hupd, hfail⟩
+        ⟨s', hupd, hinv', hlab', hmp', hlru', hnone'⟩ | ⟨e, s', hupd, hfail, hfi, hfl, hfm, hfld, hfc⟩
       · rw [hupd]
         simp only
         cases hm : k.isMulti with
@@ -1238,7 +1484,7 @@ theorem extractIloc_spec {P : Nat → φ → Prop} {store : StoreFn φ} {pinnedR
           | _ => simp [Key.isMulti] at hm
       · rw [hupd]
         right
-        exact ⟨e, s', rfl, .inl hfail⟩
+        exact ⟨e, s', rfl, hfi, hfl, hfm, hfld, hfc, .inl hfail⟩
 
 end SF.Bus
 
@@ -1413,159 +1659,7 @@ theorem fromStore_inv {P : Nat → φ → Prop} {labels : List Nat} {mp : Option
 
 end SF.Bus
 
-namespace SF.Bus
-open SF
-variable {φ : Type}
 
-/-! ### stale store: the first needed read raises and nothing is loaded or dropped -/
-
-theorem StoreSt.read_stale {β} (s : StoreSt) (d : β) (h : s.file ≠ s.seen) : s.read d = .error .storeMutation := by
-  unfold StoreSt.read StoreSt.coherentNonWrite
-  rw [(StoreSt.incoherent_iff s).mpr h]
-
-theorem loopBody_snapshot_loaded {st : StoreSt} {labels : List Nat} {mp : Option Nat} {ls : Loop φ}
-    {t : Nat × Option φ} {f : φ} {idx : Nat}
-    (hloc : locToIloc labels t.1 = .ok idx) (hf : t.2 = some f) (hb : ls.loaded[idx]? = some true)
-    (hk : ∀ k, mp = some k → ls.count ≤ k) :
-    loopBody st labels mp ls t = .ok { ls with lru := if mp.isSome then touch ls.lru t.1 else ls.lru } := by
-  unfold loopBody
-  rw [hloc]
-  simp only
-  cases mp with
-  | none =>
-    simp only [Option.isSome_none, Bool.false_eq_true, if_false]
-    unfold Loop.fetch
-    rw [hf]
-    simp only [hb, Loop.mark, if_true]
-  | some k =>
-    simp only [Option.isSome_some, if_true]
-    unfold Loop.fetch
-    rw [hf]
-    simp only [hb, Loop.mark, if_true]
-    have := hk k rfl
-    rw [if_neg (by simp; omega)]
-
-theorem loopBody_deferred_stale {st : StoreSt} {labels : List Nat} {mp : Option Nat} {ls : Loop φ}
-    {t : Nat × Option φ} {idx : Nat} {f : φ} {r : List φ}
-    (hloc : locToIloc labels t.1 = .ok idx) (hf : t.2 = none) (hr : ls.reader = f :: r)
-    (hst : st.file ≠ st.seen) :
-    ∃ ls', loopBody st labels mp ls t = .error (.storeMutation, ls') ∧ ls'.loaded = ls.loaded := by
-  unfold loopBody
-  rw [hloc]
-  simp only
-  unfold Loop.fetch
-  rw [hf]
-  cases mp with
-  | none =>
-    simp only [Option.isSome_none, Bool.false_eq_true, if_false, hr, StoreSt.read_stale st f hst]
-    exact ⟨_, rfl, rfl⟩
-  | some k =>
-    simp only [Option.isSome_some, if_true, hr, StoreSt.read_stale st f hst]
-    exact ⟨_, rfl, rfl⟩
-
-theorem loopRun_stale {st : StoreSt} {labels : List Nat} {mp : Option Nat} (hn : labels.Nodup)
-    (hst : st.file ≠ st.seen) (L0 : List Bool) :
-    ∀ (ts : List (Nat × Option φ)) (ls : Loop φ),
-      ls.loaded = L0 → (∀ k, mp = some k → ls.count ≤ k) →
-      (∀ t ∈ ts, ∃ i : Nat, labels[i]? = some t.1 ∧ L0[i]? = some t.2.isSome) →
-      Aligned (fun _ _ => True) ts ls.reader → (∃ t ∈ ts, t.2 = none) →
-      ∃ ls', loopRun st labels mp ls ts = .error (.storeMutation, ls') ∧ ls'.loaded = L0 := by
-  intro ts
-  induction ts with
-  | nil => intro ls _ _ _ _ hex; obtain ⟨t, ht, _⟩ := hex; cases ht
-  | cons t ts ih =>
-    intro ls hL hk hflag hal hex
-    obtain ⟨i, hi, hLi⟩ := hflag t (by simp)
-    obtain ⟨idx, hloc, hlab⟩ := locToIloc_ok (List.mem_of_getElem? hi)
-    have hii : idx = i := nodup_idx_unique hn hlab hi
-    subst hii
-    unfold loopRun
-    cases ht2 : t.2 with
-    | none =>
-      obtain ⟨l, fr⟩ := t
-      simp only at ht2; subst ht2
-      simp only [Aligned] at hal
-      obtain ⟨f, r, hr, _, _⟩ := hal
-      obtain ⟨ls', hbody, hl'⟩ := loopBody_deferred_stale (st := st) (mp := mp) (ls := ls) hloc rfl hr hst
-      rw [hbody]
-      exact ⟨ls', rfl, by rw [hl', hL]⟩
-    | some f =>
-      have hb : ls.loaded[idx]? = some true := by rw [hL, hLi, ht2]; rfl
-      rw [loopBody_snapshot_loaded (st := st) hloc ht2 hb hk]
-      simp only
-      have hal' : Aligned (fun _ _ => True) ts ls.reader := by
-        obtain ⟨l, fr⟩ := t
-        simp only at ht2; subst ht2
-        simpa [Aligned] using hal
-      have hex' : ∃ t' ∈ ts, t'.2 = none := by
-        obtain ⟨t', ht', hn'⟩ := hex
-        simp only [List.mem_cons] at ht'
-        rcases ht' with ht' | ht'
-        · subst ht'; rw [ht2] at hn'; cases hn'
-        · exact ⟨t', ht', hn'⟩
-      exact ih _ hL hk (fun t' ht' => hflag t' (List.mem_cons_of_mem _ ht')) hal' hex'
-
-/-- On a stale store an access that needs a load raises StoreFileMutation; flags and cells are untouched
-    (only the recency list may have been touched). -/
-theorem updateCache_stale {P : Nat → φ → Prop} {store : StoreFn φ} {pinnedReader : Bool} {st : StoreSt} {s : BusSt φ}
-    {ps : List Nat} {isElement : Bool}
-    (hinv : Inv P s) (hst : st.file ≠ st.seen)
-    (hps : ∀ p ∈ ps, p < s.labels.length) (hel : isElement = true → ps.length ≤ 1)
-    (hneed : ∃ p ∈ ps, s.loaded[p]? = some false) :
-    ∃ s', s.updateCache store pinnedReader st ps isElement = .error (.storeMutation, s') ∧
-      s'.loaded = s.loaded ∧ s'.cache = s.cache ∧ s'.labels = s.labels ∧ s'.maxPersist = s.maxPersist := by
-  have hlenL : s.loaded.length = s.labels.length := by rw [hinv.flags]; simp [hinv.lenCache]
-  obtain ⟨targets, htg⟩ := targetsOf_some s hinv.lenCache ps hps
-  obtain ⟨htlen, htlab, htmem, htps⟩ := targetsOf_spec s ps targets htg
-  obtain ⟨p0, hp0, hp0f⟩ := hneed
-  -- load is true
-  have hload : (if s.loadedAll then false else !(ps.all fun p => s.loaded[p]? == some true)) = true := by
-    have hnall : s.loadedAll = false := by
-      cases h : s.loadedAll with
-      | false => rfl
-      | true =>
-        have := all_loaded_of_flag hinv h (hps p0 hp0)
-        rw [hp0f] at this; cases this
-    rw [hnall]
-    simp only [Bool.false_eq_true, if_false, Bool.not_eq_true', List.all_eq_false]
-    exact ⟨p0, hp0, by rw [hp0f]; decide⟩
-  unfold BusSt.updateCache
-  simp only [htg, hload, Bool.not_true, Bool.false_and, Bool.false_eq_true, if_false]
-  have hflag : ∀ t ∈ targets, ∃ i : Nat, s.labels[i]? = some t.1 ∧ s.loaded[i]? = some t.2.isSome := by
-    intro t ht
-    obtain ⟨p, _, hpl, hpc⟩ := htmem t ht
-    exact ⟨p, hpl, by rw [hinv.flags, List.getElem?_map, hpc]; rfl⟩
-  have hex : ∃ t ∈ targets, t.2 = none := by
-    obtain ⟨t, ht, htl⟩ := htps p0 hp0
-    refine ⟨t, ht, ?_⟩
-    obtain ⟨i, hil, hif⟩ := hflag t ht
-    have : i = p0 := nodup_idx_unique hinv.labelsNodup hil htl
-    subst this
-    rw [hp0f] at hif
-    cases h2 : t.2 with
-    | none => rfl
-    | some f => rw [h2] at hif; cases hif
-  have hal : Aligned (fun _ _ => True) targets
-      (if isElement then targets.map fun t => store (some t.1) t.1
-       else storeReaderFrames store pinnedReader s.maxPersist ((targets.filter fun t => t.2.isNone).map (·.1))) := by
-    cases isElement with
-    | true =>
-      simp only [if_true]
-      exact aligned_element (P := fun _ _ => True) (fun l => store (some l) l) (fun _ => trivial) targets
-        (by rw [htlen]; exact hel rfl)
-    | false =>
-      simp only [Bool.false_eq_true, if_false]
-      rw [storeReaderFrames_eq]
-      exact aligned_deferred (P := fun _ _ => True) _ (fun _ => trivial) targets
-  obtain ⟨ls', hrun, hl'⟩ := loopRun_stale (st := st) (mp := s.maxPersist) hinv.labelsNodup hst s.loaded targets
-    { array := s.cache, loaded := s.loaded, lru := s.lru, count := s.loaded.count true,
-      reader := (if isElement then targets.map fun t => store (some t.1) t.1
-        else storeReaderFrames store pinnedReader s.maxPersist ((targets.filter fun t => t.2.isNone).map (·.1))) }
-    rfl (fun k hk => hinv.bound k hk) hflag hal hex
-  rw [hrun]
-  exact ⟨_, rfl, hl', rfl, rfl, rfl⟩
-
-end SF.Bus
 
 namespace SF.Bus
 open SF
@@ -1619,5 +1713,133 @@ theorem iterElements_values {P : Nat → φ → Prop} {store : StoreFn φ} {pinn
         obtain ⟨l', f', hl', hw', hP'⟩ := hws3 j i' hj
         exact ⟨l', f', by rw [← h2]; exact hl', by simpa using hw', hP'⟩
     · cases h
+
+end SF.Bus
+
+namespace SF.Bus
+open SF
+variable {φ : Type}
+
+/-! ### failed operations keep the invariant: full histories -/
+
+theorem extractIloc_err_inv {P : Nat → φ → Prop} {store : StoreFn φ} {pinnedReader : Bool} {st : StoreSt}
+    {s s' : BusSt φ} {k : Key} {e : Err}
+    (hinv : Inv P s) (hR1 : ∀ l, P l (store (some l) l))
+    (hR2 : ∀ l, P l (store (readerCfgKey pinnedReader s.maxPersist l) l))
+    (h : s.extractIloc store pinnedReader st k = .error (e, s')) :
+    Inv P s' ∧ s'.labels = s.labels ∧ s'.maxPersist = s.maxPersist ∧ s'.loaded = s.loaded ∧ s'.cache = s.cache := by
+  rcases extractIloc_spec (st := st) (k := k) hinv hR1 hR2 with
+    ⟨s1, r1, ps, h1, _⟩ | ⟨e1, s1, h1, h2, h3, h4, h5, h6, _⟩
+  · rw [h1] at h; cases h
+  · rw [h1] at h
+    simp only [Except.error.injEq, Prod.mk.injEq] at h
+    obtain ⟨rfl, rfl⟩ := h
+    exact ⟨h2, h3, h4, h5, h6⟩
+
+theorem iterElements_err_inv {P : Nat → φ → Prop} {store : StoreFn φ} {pinnedReader : Bool} {st : StoreSt}
+    (hR1 : ∀ l, P l (store (some l) l)) :
+    ∀ (is : List Nat) (s : BusSt φ) (acc : List (Option φ)) (s' : BusSt φ) (e : Err),
+      Inv P s → (∀ l, P l (store (readerCfgKey pinnedReader s.maxPersist l) l)) →
+      BusSt.iterElements store pinnedReader st s is acc = .error (e, s') →
+      Inv P s' ∧ s'.labels = s.labels ∧ s'.maxPersist = s.maxPersist := by
+  intro is
+  induction is with
+  | nil => intro s acc s' e _ _ h; unfold BusSt.iterElements at h; cases h
+  | cons i is ih =>
+    intro s acc s' e hinv hR2 h
+    unfold BusSt.iterElements at h
+    split at h
+    · rename_i e1 hext
+      simp only [Except.error.injEq] at h
+      subst h
+      obtain ⟨h1, h2, h3, _⟩ := extractIloc_err_inv hinv hR1 hR2 hext
+      exact ⟨h1, h2, h3⟩
+    · rename_i s1 v hext
+      obtain ⟨h1, h2, h3, _⟩ := extractIloc_inv hinv hR1 hR2 hext
+      obtain ⟨h4, h5, h6⟩ := ih s1 _ s' e h1 (by rw [h3]; exact hR2) h
+      exact ⟨h4, by rw [h5, h2], by rw [h6, h3]⟩
+    · rename_i s1 d hext
+      simp only [Except.error.injEq, Prod.mk.injEq] at h
+      obtain ⟨_, rfl⟩ := h
+      obtain ⟨h1, h2, h3, _⟩ := extractIloc_inv hinv hR1 hR2 hext
+      exact ⟨h1, h2, h3⟩
+
+theorem values_err_inv {P : Nat → φ → Prop} {store : StoreFn φ} {pinnedReader : Bool} {st : StoreSt}
+    {s s' : BusSt φ} {e : Err}
+    (hinv : Inv P s) (hR1 : ∀ l, P l (store (some l) l))
+    (hR2 : ∀ l, P l (store (readerCfgKey pinnedReader s.maxPersist l) l))
+    (h : s.values store pinnedReader st = .error (e, s')) :
+    Inv P s' ∧ s'.labels = s.labels ∧ s'.maxPersist = s.maxPersist := by
+  unfold BusSt.values at h
+  split at h
+  · split at h
+    · split at h
+      · rename_i e1 hupd
+        simp only [Except.error.injEq] at h
+        subst h
+        rcases updateCache_spec (st := st) (ps := List.range s.labels.length) (isElement := false) hinv hR1 hR2
+            (by intro p hp; exact List.mem_range.mp hp) (by intro h; cases h) with
+          ⟨s2, h1, _⟩ | ⟨e2, s2, h1, _, h3, h4, h5, _⟩
+        · rw [h1] at hupd; cases hupd
+        · rw [h1] at hupd
+          simp only [Except.error.injEq, Prod.mk.injEq] at hupd
+          obtain ⟨rfl, rfl⟩ := hupd
+          exact ⟨h3, h4, h5⟩
+      · cases h
+    · cases h
+  · exact iterElements_err_inv hR1 _ s [] s' e hinv hR2 h
+
+theorem stepState_inv {P : Nat → φ → Prop} {store : StoreFn φ} {pinnedReader : Bool} {st : StoreSt} {s : BusSt φ}
+    {op : BusOp}
+    (hinv : Inv P s) (hR1 : ∀ l, P l (store (some l) l))
+    (hR2 : ∀ l, P l (store (readerCfgKey pinnedReader s.maxPersist l) l)) :
+    Inv P (s.stepState store pinnedReader st op) ∧ (s.stepState store pinnedReader st op).labels = s.labels ∧
+    (s.stepState store pinnedReader st op).maxPersist = s.maxPersist := by
+  unfold BusSt.stepState
+  cases hstep : s.step store pinnedReader st op with
+  | ok s' => exact step_inv hinv hR1 hR2 hstep
+  | error es =>
+    obtain ⟨e, s'⟩ := es
+    simp only
+    cases op with
+    | access k =>
+      simp only [BusSt.step] at hstep
+      split at hstep
+      · rename_i e1 hext
+        simp only [Except.error.injEq] at hstep
+        subst hstep
+        obtain ⟨h1, h2, h3, _⟩ := extractIloc_err_inv hinv hR1 hR2 hext
+        exact ⟨h1, h2, h3⟩
+      · cases hstep
+    | values =>
+      simp only [BusSt.step] at hstep
+      split at hstep
+      · rename_i e1 hv
+        simp only [Except.error.injEq] at hstep
+        subst hstep
+        exact values_err_inv hinv hR1 hR2 hv
+      · cases hstep
+    | peek => simp only [BusSt.step] at hstep; cases hstep
+
+theorem runAll_inv {P : Nat → φ → Prop} {store : StoreFn φ} {pinnedReader : Bool}
+    (hR1 : ∀ l, P l (store (some l) l)) :
+    ∀ (evs : List HistEv) (st : StoreSt) (s : BusSt φ), Inv P s →
+      (∀ l, P l (store (readerCfgKey pinnedReader s.maxPersist l) l)) →
+      Inv P (BusSt.runAll store pinnedReader st s evs).2 ∧
+      (BusSt.runAll store pinnedReader st s evs).2.labels = s.labels ∧
+      (BusSt.runAll store pinnedReader st s evs).2.maxPersist = s.maxPersist := by
+  intro evs
+  induction evs with
+  | nil => intro st s hinv _; exact ⟨hinv, rfl, rfl⟩
+  | cons ev evs ih =>
+    intro st s hinv hR2
+    cases ev with
+    | op o =>
+      simp only [BusSt.runAll]
+      obtain ⟨h1, h2, h3⟩ := stepState_inv (st := st) (op := o) hinv hR1 hR2
+      obtain ⟨h4, h5, h6⟩ := ih st _ h1 (by rw [h3]; exact hR2)
+      exact ⟨h4, by rw [h5, h2], by rw [h6, h3]⟩
+    | file e => simp only [BusSt.runAll]; exact ih _ s hinv hR2
+    | storeWrite now => simp only [BusSt.runAll]; exact ih _ s hinv hR2
 
 end SF.Bus
